@@ -38,4 +38,18 @@ mod verif_proofs {
         vk_cover!(wa > 40000.0, "win ascent beyond i16 (field is u16)");
         std::mem::forget(gm); std::mem::forget(os2);
     }
+
+    /// a metric beyond the range of its OS/2 field must not be stored as something else
+    /// (known finding on the pinned tree: it saturates; apply_metrics has no error path)
+    #[cfg_attr(kani, kani::proof)]
+    #[cfg_attr(kani, kani::unwind(3))]
+    pub(super) fn c19_os2_metric_beyond_i16() {
+        let v = vk::finite_f64(1.0e9);
+        vk::assume(v >= 32767.5 || v < -32768.5);
+        let gm = GlobalMetricsInstance { cap_height: v.into(), ..Default::default() };
+        let mut os2 = Os2::default();
+        apply_metrics(&mut os2, &gm);
+        assert!(os2.s_cap_height.map(|c| (c as f64 - v).abs() <= 0.5).unwrap_or(false), "VK_ASSERT os2_metric_beyond_i16_not_clamped");
+        std::mem::forget(gm); std::mem::forget(os2);
+    }
 }
